@@ -15,7 +15,7 @@ import Driver.ProtoMesh
 import FcModel.Transform
 import FcModel.Extend
 import FcModel.Spec.C08
-namespace Fc.Drv
+namespace Fc.Drv.C08
 open Fc
 
 def showInts (l : List Int) : String := ",".intercalate (l.map toString)
@@ -126,4 +126,7 @@ def handleC08 (op : String) : Option (P String) :=
   | "c08.extend" => some opExtend
   | _ => none
 
-end Fc.Drv
+end Fc.Drv.C08
+
+/-- re-export for Driver/Main.lean -/
+def Fc.Drv.handleC08 := Fc.Drv.C08.handleC08
